@@ -82,7 +82,7 @@ func TestVerifC17(t *testing.T) {
 		Scenario: c17Scenario,
 		EnumN:    func(string) int { return len(c17Enum) },
 		EnumAt:   func(_ string, i int) []int { return c17Enum[i] },
-		Runs:     map[string]int{"quick": 1500, "thorough": 300000},
+		Runs:     map[string]int{"quick": 10000, "thorough": 600000},
 		Real:     []string{"cmd/application handleNewTCPConn incl. both generalizeErr call paths and every log statement", "pkg/station/lib Proxy / halfPipe / tunnelStats summaries / generalizeErr", "transports (obfs4 server handshake I/O on the client connection)", "ingest pipeline log lines (registration path)", "pkg/station/log level filtering at the default level"},
 		Stub:     []string{"TCP connections with fault plans (simnet; errors shaped like the net package's, whose text embeds both endpoints)", "covert echo host, liveness table, detector recorder", "stdout/stderr/std logger are redirected to a capture file in TestMain before any logger exists"},
 		Rule: "enumerated: outcome class {no registration, no transport, found via min / prefix / obfs4, transport error} x client family {IPv4, IPv6, v4-mapped} x fault site (17 operation sites on the client connection, the dial and the covert connection) x every error shape of that operation kind (read 13, write 12, close 4, deadline 3, dial 8), plus the fault-free runs: all single faults; random: pairs of faults, registration-path events (forbidden covert, live phantom, duplicates, sweep). " +
